@@ -32,6 +32,7 @@ type Obligation struct {
 	Model   map[string]string
 	Output  string
 	fn      *FuncCtx
+	prune   bool // render queries without the quantified hypotheses that are unrelated to the goal
 }
 
 // ID returns the stable identifier of the obligation.
@@ -156,6 +157,7 @@ func (o *Obligation) QueryWith(forCVC5 bool, wantModel bool, extra string) strin
 		sb.WriteByte('\n')
 	}
 	si := 0
+	var facts []string
 	for i, f := range c.facts[:o.NFact] {
 		for si < len(o.Skip) && i >= o.Skip[si][1] {
 			si++
@@ -163,6 +165,12 @@ func (o *Obligation) QueryWith(forCVC5 bool, wantModel bool, extra string) strin
 		if si < len(o.Skip) && i >= o.Skip[si][0] && i < o.Skip[si][1] {
 			continue
 		}
+		facts = append(facts, f)
+	}
+	if o.prune {
+		facts = o.pruneFacts(facts, extra)
+	}
+	for _, f := range facts {
 		sb.WriteString(f)
 		sb.WriteByte('\n')
 	}
@@ -378,4 +386,104 @@ func splitSexprs(s string) []string {
 		out = append(out, s[start:])
 	}
 	return out
+}
+
+var quotedSymRe = regexp.MustCompile(`\|[^|]*\|`)
+
+// arraySyms returns the array-sorted constants (heaps, ghost maps, array temporaries) mentioned in s.
+func (c *FuncCtx) arraySyms(s string, into map[string]bool) {
+	for _, m := range quotedSymRe.FindAllString(s, -1) {
+		if strings.HasPrefix(c.sorts[m], "(Array") {
+			into[m] = true
+		}
+	}
+}
+
+// pruneFacts drops quantified hypotheses that cannot be connected to the goal: a quantified
+// fact is kept only if an array symbol of its patterns (of its body, if it has no pattern) is
+// reachable from the array symbols of the goal through ground facts and kept quantified facts.
+// Dropping hypotheses is sound (the pruned query implies the full one is unsat if it is unsat).
+func (o *Obligation) pruneFacts(facts []string, extra string) []string {
+	c := o.fn
+	reach := map[string]bool{}
+	c.arraySyms(o.Goal, reach)
+	c.arraySyms(extra, reach)
+	if len(reach) == 0 {
+		return facts
+	}
+	type fi struct {
+		quant bool
+		syms  map[string]bool
+		trig  map[string]bool
+		used  bool
+	}
+	info := make([]*fi, len(facts))
+	for i, f := range facts {
+		x := &fi{syms: map[string]bool{}}
+		c.arraySyms(f, x.syms)
+		if strings.Contains(f, "(forall ") || strings.Contains(f, "(exists ") {
+			x.quant = true
+			x.trig = map[string]bool{}
+			rest := f
+			for {
+				k := strings.Index(rest, ":pattern ")
+				if k < 0 {
+					break
+				}
+				rest = rest[k+9:]
+				e := sexprEnd(rest, 0)
+				if e < 0 {
+					break
+				}
+				c.arraySyms(rest[:e+1], x.trig)
+				rest = rest[e+1:]
+			}
+			if len(x.trig) == 0 {
+				x.trig = x.syms
+			}
+		}
+		info[i] = x
+	}
+	for changed := true; changed; {
+		changed = false
+		for _, x := range info {
+			if x.used || len(x.syms) == 0 {
+				continue
+			}
+			src := x.syms
+			if x.quant {
+				src = x.trig
+			}
+			hit := false
+			for s := range src {
+				if reach[s] {
+					hit = true
+					break
+				}
+			}
+			if !hit {
+				continue
+			}
+			x.used = true
+			changed = true
+			for s := range x.syms {
+				reach[s] = true
+			}
+		}
+	}
+	var out []string
+	for i, f := range facts {
+		if info[i].quant && !info[i].used {
+			continue
+		}
+		out = append(out, f)
+	}
+	return out
+}
+
+// QueryPruned renders the query without the quantified hypotheses unrelated to the goal.
+func (o *Obligation) QueryPruned(forCVC5 bool) string {
+	o2 := *o
+	o2.prune = true
+	return o2.QueryWith(forCVC5, false, "")
 }
